@@ -250,6 +250,7 @@ def arr_setitem(interp, st, arr, idx, v):
                     cs.append(T.cmp(">=", i, lo))
                     cs.append(T.cmp("<", i, hi))
         return T.land(*cs)
+    guard.spec = spec
     sl = [k for k, s in enumerate(spec) if s[0] == "s"]
     if isinstance(v, Arr):
         off = len(sl) - v.ndim
@@ -584,13 +585,8 @@ def reduce_extreme(interp, st, a, is_max):
     if a.ndim != 1:
         raise Unsupported("max/min of n-d symbolic array")
     n = a.shape[0]
-    m = T.Fresh.real("max" if is_max else "min")
-    j = T.Fresh.int("j")
-    w = T.Fresh.int("argm")
-    op = ">=" if is_max else "<="
-    st.assume(z3.ForAll([j], z3.Implies(z3.And(j >= 0, j < T.to_z3(n)), T.cmp(op, m, a.get((j,))))))
-    st.assume(T.implies(T.cmp(">", n, 0), z3.And(w >= 0, w < T.to_z3(n), m == T.to_z3(a.get((w,))))))
-    return m
+    bv = T.Fresh.int("j")
+    return T.make_extreme(0, n, bv, T.to_real(T.to_z3(a.get((bv,)))), is_max)
 
 
 @reg("numpy.max")
